@@ -116,11 +116,111 @@ pub fn guarded<T>(f: impl FnOnce() -> T) -> Result<T, String> {
 }
 
 pub fn fmt(text: &str, cfg: Cfg) -> FmtOut {
-    match guarded(|| Typstyle::new(cfg.to_config()).format_content(text)) {
+    let prev = crumb_set(text, cfg);
+    let r = match guarded(|| Typstyle::new(cfg.to_config()).format_content(text)) {
         Ok(Ok(s)) => FmtOut::Ok(s),
         Ok(Err(_)) => FmtOut::Refused,
         Err(p) => FmtOut::Panic(p),
+    };
+    crumb_restore(prev);
+    r
+}
+
+// ------------------------------------------------------------------------------------------------
+// Crash breadcrumb: an abort (allocation failure, stack exhaustion) escapes catch_unwind and kills the whole check process.
+// Each thread keeps a pointer to the input it is formatting; a SIGABRT handler writes that input to a pre-opened file with
+// write(2) only, so that the supervising parent process can name the input (and confirm it in an isolated worker).
+
+type Crumb = (usize, usize, usize, usize, bool);
+thread_local! {
+    static CRUMB: std::cell::Cell<Crumb> = const { std::cell::Cell::new((0, 0, 0, 0, false)) };
+}
+static CRUMB_FD: std::sync::atomic::AtomicI32 = std::sync::atomic::AtomicI32::new(-1);
+static CRUMB_WRITTEN: std::sync::atomic::AtomicBool = std::sync::atomic::AtomicBool::new(false);
+
+pub fn crumb_set(text: &str, cfg: Cfg) -> Crumb {
+    CRUMB.with(|c| c.replace((text.as_ptr() as usize, text.len(), cfg.width, cfg.tab, cfg.reorder)))
+}
+
+pub fn crumb_restore(prev: Crumb) {
+    CRUMB.with(|c| c.set(prev));
+}
+
+fn write_all(fd: i32, mut b: &[u8]) {
+    while !b.is_empty() {
+        let n = unsafe { libc::write(fd, b.as_ptr() as *const libc::c_void, b.len()) };
+        if n <= 0 {
+            return;
+        }
+        b = &b[n as usize..];
     }
+}
+
+fn write_num(fd: i32, mut n: usize) {
+    let mut buf = [0u8; 24];
+    let mut i = buf.len();
+    loop {
+        i -= 1;
+        buf[i] = b'0' + (n % 10) as u8;
+        n /= 10;
+        if n == 0 {
+            break;
+        }
+    }
+    write_all(fd, &buf[i..]);
+    write_all(fd, b" ");
+}
+
+extern "C" fn on_abort(_sig: libc::c_int) {
+    use std::sync::atomic::Ordering;
+    let fd = CRUMB_FD.load(Ordering::Relaxed);
+    if fd < 0 {
+        return;
+    }
+    let _ = CRUMB.try_with(|c| {
+        let (p, l, w, t, r) = c.get();
+        if p != 0 && !CRUMB_WRITTEN.swap(true, Ordering::SeqCst) {
+            write_num(fd, w);
+            write_num(fd, t);
+            write_num(fd, r as usize);
+            write_num(fd, l);
+            write_all(fd, b"\n");
+            write_all(fd, unsafe { std::slice::from_raw_parts(p as *const u8, l) });
+        }
+    });
+    // returning lets abort() finish the job with the default action
+}
+
+/// Open the breadcrumb file and hook SIGABRT (used by the supervised inner process of `tyv check`).
+pub fn install_crash_crumb(path: &str) {
+    let Ok(c) = std::ffi::CString::new(path) else { return };
+    let fd = unsafe { libc::open(c.as_ptr(), libc::O_CREAT | libc::O_WRONLY | libc::O_TRUNC, 0o644) };
+    if fd < 0 {
+        return;
+    }
+    CRUMB_FD.store(fd, std::sync::atomic::Ordering::Relaxed);
+    unsafe {
+        let mut sa: libc::sigaction = std::mem::zeroed();
+        sa.sa_sigaction = on_abort as usize;
+        sa.sa_flags = libc::SA_RESETHAND;
+        libc::sigaction(libc::SIGABRT, &sa, std::ptr::null_mut());
+    }
+}
+
+/// Parse a breadcrumb file: (cfg, input).
+pub fn read_crash_crumb(path: &str) -> Option<(Cfg, String)> {
+    let b = std::fs::read(path).ok()?;
+    let nl = b.iter().position(|&c| c == b'\n')?;
+    let head = std::str::from_utf8(&b[..nl]).ok()?;
+    let nums: Vec<usize> = head.split_whitespace().filter_map(|x| x.parse().ok()).collect();
+    if nums.len() != 4 {
+        return None;
+    }
+    let body = &b[nl + 1..];
+    if body.len() != nums[3] {
+        return None;
+    }
+    Some((Cfg::new(nums[0], nums[1], nums[2] != 0), String::from_utf8_lossy(body).into_owned()))
 }
 
 /// Width sweeps. `longest` = the longest line of the flat (huge width) output.
